@@ -86,25 +86,35 @@ def digitsToNat (ds : List Char) : Nat := ds.foldl (fun n c => n * 10 + (c.toNat
 def int64Min : Int := -9223372036854775808
 def int64Max : Int := 9223372036854775807
 
+/-- an optional leading minus sign -/
+def negSplit (cs : List Char) : Bool × List Char :=
+  match cs with
+  | '-' :: r => (true, r)
+  | _ => (false, cs)
+
+/-- the integer part: a single `0` (not followed by a digit) or a run of digits -/
+def intPart (cs1 : List Char) : Option (List Char × List Char) :=
+  match cs1 with
+  | '0' :: r =>
+    (match r with
+     | d :: _ => if d.isDigit then none else some (['0'], r)
+     | [] => some (['0'], r))
+  | d :: _ => if d.isDigit then some (takeDigits cs1) else none
+  | [] => none
+
+/-- does a fraction or an exponent follow -/
+def realStart (r1 : List Char) : Bool :=
+  match r1 with
+  | '.' :: _ => true | 'e' :: _ => true | 'E' :: _ => true | _ => false
+
 /-- number starting at the current position (first char is `-` or a digit) -/
 def scanNumber (cs : List Char) : Option (Json × List Char) :=
-  let (neg, cs1) := match cs with
-    | '-' :: r => (true, r)
-    | _ => (false, cs)
-  -- integer part
-  let ip : Option (List Char × List Char) :=
-    match cs1 with
-    | '0' :: r =>
-      (match r with
-       | d :: _ => if d.isDigit then none else some (['0'], r)
-       | [] => some (['0'], r))
-    | d :: _ => if d.isDigit then some (takeDigits cs1) else none
-    | [] => none
-  match ip with
+  let neg := (negSplit cs).1
+  let cs1 := (negSplit cs).2
+  match intPart cs1 with
   | none => none
   | some (idigs, r1) =>
-    let isRealStart := match r1 with
-      | '.' :: _ => true | 'e' :: _ => true | 'E' :: _ => true | _ => false
+    let isRealStart := realStart r1
     if !isRealStart then
       let n : Int := if neg then - (Int.ofNat (digitsToNat idigs)) else Int.ofNat (digitsToNat idigs)
       if n < int64Min ∨ n > int64Max then none else some (.int n, r1)
@@ -202,10 +212,17 @@ mutual
         | _ => none
 end
 
+/-- does the text start an object or an array (what `json_loadb` demands without JSON_DECODE_ANY) -/
+def startsContainer (cs : List Char) : Bool :=
+  match cs with
+  | '{' :: _ => true
+  | '[' :: _ => true
+  | _ => false
+
 /-- `json_loadb` on already UTF-8-validated text; returns value and unconsumed rest -/
 def loadChars (fl : LoadFlags) (cs : List Char) : Option (Json × List Char) :=
   let cs0 := skipWs cs
-  let okStart := fl.decodeAny || (match cs0 with | '{' :: _ => true | '[' :: _ => true | _ => false)
+  let okStart := fl.decodeAny || startsContainer cs0
   if !okStart then none
   else match parseValue fl.allowNul cs0 (cs0.length + 2) with
     | none => none
